@@ -363,7 +363,7 @@ def comment_runs(gap):
     n, i = 0, 0
     while i < len(gap):
         if gap.startswith("/*", i):
-            i = gap.index("*/", i) + 2
+            i = gap.index("*/", i + 2) + 2      # the closing delimiter is searched after the opener ("/*/" does not close itself)
             n += 1
         elif gap.startswith("//", i):
             i = gap.index("\n", i) + 1
